@@ -23,12 +23,15 @@ CLAIMS = {
 OPTIONAL_CLAIMS = ('C01.runs',)
 GOALS = {
     'quick': ['deferral across a call boundary', 'truncated interval',
-              'quiet poll', 'two processes applied in one batch'],
+              'quiet poll', 'two processes applied in one batch',
+              'a process runs in a worker',
+              'a process nested in a compartment',
+              'initial global time not 0', 'empty update'],
     'thorough': ['deferral across a call boundary', 'truncated interval',
                  'quiet poll', 'two processes applied in one batch',
                  'a process runs in a worker',
                  'a process nested in a compartment',
-                 'initial global time not 0'],
+                 'initial global time not 0', 'empty update'],
 }
 STUBS = sched_stubs = [
     'stub processes (pure): symbolic timestep per process or per poll, symbolic '
@@ -88,6 +91,8 @@ def jobs(tier):
         J.append(_cfg('parallel-condfresh-N2', 2, 1, 3, 'const', 'fresh', tier,
                       parallel=True, par_fixed={'0': True}))
         J.append(_cfg('g0-N2', 2, 2, 3, 'const', 'none', tier, g0=3))
+        J.append(_cfg('empties-N2', 2, 1, 3, 'const', 'none', tier,
+                      empties=True))
         J.append(_cfg('nested-N2', 2, 2, 3, 'const', 'none', tier, nested=True))
         J.append(_cfg('nested-condfresh-N2', 2, 1, 3, 'const', 'fresh', tier,
                       nested=True))
@@ -114,6 +119,8 @@ def jobs(tier):
                       parallel=True))
         J.append(_cfg('nested-N3', 3, 2, 3, 'const', 'none', tier, nested=True))
         J.append(_cfg('g0-N2', 2, 2, 4, 'const', 'none', tier, g0=5))
+        J.append(_cfg('empties-N2', 2, 2, 3, 'const', 'none', tier,
+                      empties=True))
         J.append(_cfg('g0-condfresh-N2', 2, 2, 3, 'const', 'fresh', tier, g0=3))
         J.append(_cfg('dyadic-N2', 2, 3, 3, 'const', 'none', tier,
                       ts_grid=[0.5, 1.5, 0.25, 1.0],
@@ -133,7 +140,7 @@ def scenario(ctx, cfg, owner):
         applied = {t for t, _, _ in run.applied}
         for n, p in run.procs.items():
             for c in p.ncalls:
-                if (n, c['k']) not in applied:
+                if (n, c['k']) not in applied and not c.get('empty'):
                     pending.append(NOT(sched.expected_end(c) <= G))
                     ctx.goal('update pending at return')
     run.pending_claims = pending
@@ -195,7 +202,8 @@ def body(ctx, cfg):
     once = [c <= 1 for c in counts.values()]
     for n, p in run.procs.items():
         for c in p.ncalls:
-            once.append(counts.get((n, c['k']), 0) == 1)
+            once.append(counts.get((n, c['k']), 0) ==
+                        (0 if c.get('empty') else 1))
     once += run.pending_claims
     ctx.claim('C01.once', AND(once), sig='once', info=describe)
     # ---- on_time, in_order
